@@ -2,6 +2,7 @@ package harness
 
 import (
 	"bytes"
+	ethcrypto "com.tuntun.rangers/node/src/eth_crypto"
 	"encoding/hex"
 	"encoding/json"
 	"fmt"
@@ -82,11 +83,11 @@ func (c12) Budget(tier string) runner.Budget {
 
 func (c12) Describe() runner.Description {
 	return runner.Description{
-		Rule:        "call-tree plans (85%): a seeded tree of 2..14 frames (depth <=5), each a deployed contract with effects (SSTORE of a per-frame slot, LOG1, 1-wei transfer to a sink, CREATE of a 1-byte contract), children called by CALL / CALLCODE / DELEGATECALL / STATICCALL with full or limited gas, and an ending (RETURN, REVERT, INVALID, infinite loop, stack fault); the root gas limit is ample or starved at a seeded point. Every successful frame returns the bitmap of frames of its subtree whose effects must persist; the transaction runs through the real block executor. Oracle: final storage of every frame slot, the ordered receipt logs, sink and contract balances, contract nonces and the set of created accounts equal exactly the effects of the frames in the returned bitmap (failed frames and their subtrees contribute nothing); no frame inside a STATICCALL subtree that has effects may report success and nothing from such a subtree may persist; a failed root leaves the whole state as before except fee/nonce of the sender. Failed-creation plans (8%): a contract runs an inner CREATE whose init code stores, logs and optionally pays out of its endowment and then ends by returning 1 byte / 200000 bytes (code deposit unpayable at the lower gas limits) / 250000 bytes (over the size limit) / REVERT / INVALID; the creator records what CREATE pushed; if it reported failure no account, storage, balance or log of the creation frame may remain and the endowment is back with the creator. Stake-opcode plans (5%): a contract that is the account of a registered miner executes the node's STAKE / UNSTAKE / UNSTAKEALL opcode inside a STATICCALL (25%: plain CALL as control); its balance and the miner record must be unchanged afterwards. Cross-transaction plans (15%): 2-4 identical-shaped transactions in one block, each TLOADs a slot, records it, TSTOREs, touches storage and logs: every transaction must read transient storage empty, pay the same gas (no warm access list inherited), and its receipt must carry exactly its own log; in half of them the transactions only warm ADDRESSES (account-access opcodes, an inner CREATE, a deployment transaction) and every probe transaction not first in the block must use exactly the gas it uses alone in a block on the same parent state. distinct_nontrivial = distinct tree shapes (kinds, endings, effects, gas shares) with at least one failing inner frame.",
+		Rule:        "call-tree plans (85%): a seeded tree of 2..14 frames (depth <=5), each a deployed contract with effects (SSTORE of a per-frame slot, LOG1, 1-wei transfer to a sink, CREATE of a 1-byte contract), children called by CALL / CALLCODE / DELEGATECALL / STATICCALL with full or limited gas, and an ending (RETURN, REVERT, INVALID, infinite loop, stack fault); the root gas limit is ample or starved at a seeded point. Every successful frame returns the bitmap of frames of its subtree whose effects must persist; the transaction runs through the real block executor. Oracle: final storage of every frame slot, the ordered receipt logs, sink and contract balances, contract nonces and the set of created accounts equal exactly the effects of the frames in the returned bitmap (failed frames and their subtrees contribute nothing); no frame inside a STATICCALL subtree that has effects may report success and nothing from such a subtree may persist; a failed root leaves the whole state as before except fee/nonce of the sender. Failed-creation plans (8%): a contract runs an inner CREATE whose init code stores, logs and optionally pays out of its endowment and then ends by returning 1 byte / 200000 bytes (code deposit unpayable at the lower gas limits) / 250000 bytes (over the size limit) / REVERT / INVALID; the creator records what CREATE pushed; if it reported failure no account, storage, balance or log of the creation frame may remain and the endowment is back with the creator. Stake-opcode plans (5%): a contract that is the account of a registered miner executes the node's STAKE / UNSTAKE / UNSTAKEALL opcode inside a STATICCALL (25%: plain CALL as control); its balance and the miner record must be unchanged afterwards; or a contract AUTHs itself with an externally owned account's signature and AUTHCALLs a sink with value inside a STATICCALL: the account's nonce and the sink's balance must be unchanged. Cross-transaction plans (15%): 2-4 identical-shaped transactions in one block, each TLOADs a slot, records it, TSTOREs, touches storage and logs: every transaction must read transient storage empty, pay the same gas (no warm access list inherited), and its receipt must carry exactly its own log; in half of them the transactions only warm ADDRESSES (account-access opcodes, an inner CREATE, a deployment transaction) and every probe transaction not first in the block must use exactly the gas it uses alone in a block on the same parent state. distinct_nontrivial = distinct tree shapes (kinds, endings, effects, gas shares) with at least one failing inner frame.",
 		Assumptions: []string{"frame effects use per-frame slots/topics so that every observed value is attributable to one frame", "SELFDESTRUCT only as the ending of a CALL-kind frame (its own contract), beneficiary a sink account"},
 		Real:        []string{"vm (EVM call/create/static handling, interpreter, gas)", "executor contract executor", "core/vmexecutor (Prepare, snapshot/revert, receipts)", "storage/account (journal, access list, transient storage, logs)"},
 		Stub:        []string{"ConsensusHelper", "network"},
-		FaultKinds:  []string{"frame_selfdestruct", "gas_starvation_root", "gas_starvation_frame", "frame_revert", "frame_invalid", "frame_oog", "frame_stackfault", "static_context", "same_block_second_tx", "inner_create_small", "inner_create_big", "inner_create_toolarge", "inner_create_revert", "inner_create_invalid", "stake_opcode_stake", "stake_opcode_unstake", "stake_opcode_unstakeall"},
+		FaultKinds:  []string{"frame_selfdestruct", "gas_starvation_root", "gas_starvation_frame", "frame_revert", "frame_invalid", "frame_oog", "frame_stackfault", "static_context", "same_block_second_tx", "inner_create_small", "inner_create_big", "inner_create_toolarge", "inner_create_revert", "inner_create_invalid", "stake_opcode_stake", "stake_opcode_unstake", "stake_opcode_unstakeall", "stake_opcode_authcall"},
 	}
 }
 
@@ -94,7 +95,7 @@ func (c12) Gen(seed uint64, tier string) json.RawMessage {
 	r := simrt.NewRand(seed)
 	p := c12Plan{Seed: seed, RootGas: 800000000}
 	if r.Chance(0.05) {
-		p.SS = []string{"stake", "unstake", "unstakeall"}[r.Intn(3)]
+		p.SS = []string{"stake", "unstake", "unstakeall", "authcall"}[r.Intn(4)]
 		p.SSPlain = r.Chance(0.25)
 		b, _ := json.Marshal(p)
 		return b
@@ -931,6 +932,9 @@ func c12StaticStake(p *c12Plan, ec *execChain, st *simrt.Stats, log *simrt.Log) 
 	viol := func(ev int, clause, where, f string, a ...interface{}) *simrt.Violation {
 		return simrt.Violationf("C12", clause, where, ev, f, a...)
 	}
+	if p.SS == "authcall" {
+		return c12StaticAuthCall(p, ec, st, log)
+	}
 	saddr, raddr := c12Addr(700), c12Addr(701)
 	five := new(big.Int).Mul(big.NewInt(5), oneToken)
 	var sc evmasm.Code
@@ -1013,6 +1017,97 @@ func c12StaticStake(p *c12Plan, ec *execChain, st *simrt.Stats, log *simrt.Log) 
 			return viol(0, "write-in-static-context-succeeded", p.SS+"-opcode", "the %s opcode executed inside a STATICCALL reported success and modified state: %s", strings.ToUpper(p.SS), desc)
 		}
 		return viol(0, "failed-frame-left-trace", p.SS+"-opcode", "a STATICCALL frame that failed left state behind: %s", desc)
+	}
+	return nil
+}
+
+// c12StaticAuthCall: contract S authorises itself for an externally owned account (AUTH with that
+// account's signature over S's address and this chain id) and then AUTHCALLs the sink with 3 wei; the root
+// calls S by STATICCALL. AUTHCALL bumps the authorising account's nonce and moves value: inside a static
+// call neither may happen.
+func c12StaticAuthCall(p *c12Plan, ec *execChain, st *simrt.Stats, log *simrt.Log) *simrt.Violation {
+	viol := func(ev int, clause, where, f string, a ...interface{}) *simrt.Violation {
+		return simrt.Violationf("C12", clause, where, ev, f, a...)
+	}
+	saddr, raddr := c12Addr(710), c12Addr(711)
+	key := &node.HarnessKeys[0].SK.PrivKey
+	authority := ethcrypto.PubkeyToAddress(key.PublicKey)
+	common.SetBlockHeight(ec.height)
+	chainID := common.GetChainId(ec.height + 1)
+	commit := common.BytesToHash(common.Sha256([]byte(fmt.Sprintf("c12-commit-%d", p.Seed))))
+	msg := make([]byte, 97)
+	msg[0] = 0x03
+	copy(msg[1:33], common.BigToHash(chainID).Bytes())
+	copy(msg[33:65], common.BytesToHash(saddr.Bytes()).Bytes())
+	copy(msg[65:], commit.Bytes())
+	sig, err := ethcrypto.Sign(ethcrypto.Keccak256(msg), key)
+	if err != nil {
+		panic(runner.InfraError{Msg: "c12 authcall: sign: " + err.Error()})
+	}
+	s0 := ec.state()
+	nonce0 := s0.GetNonce(authority)
+	var sc evmasm.Code
+	word := func(b []byte) []byte { return common.BytesToHash(b).Bytes() }
+	for i, w := range [][]byte{word([]byte{sig[64]}), word(sig[0:32]), word(sig[32:64]), commit.Bytes()} {
+		sc.PushBytes(w).Push(uint64(0x100 + 32*i)).Op(evmasm.MSTORE)
+	}
+	sc.Push(128).Push(0x100).PushBytes(authority.Bytes()).Op(0xf6) // AUTH -> bool
+	sc.Op(evmasm.POP)
+	// AUTHCALL(nonce, gas, addr, value, valueExt, argsOffset, argsLength, retOffset, retLength)
+	sc.Push(0).Push(0).Push(0).Push(0).Push(0).Push(3).PushBytes(c12Sink.Bytes()).Push(200000).Push(nonce0).Op(0xf7)
+	sc.Push(0).Op(evmasm.MSTORE).Push(32).Push(0).Op(evmasm.RETURN)
+	var rcode evmasm.Code
+	rcode.Push(32).Push(0x40).Push(0).Push(0)
+	op := byte(evmasm.STATICCALL)
+	if p.SSPlain {
+		rcode.Push(0)
+		op = evmasm.CALL
+	}
+	rcode.PushBytes(saddr.Bytes()).Op(evmasm.GAS, op)
+	rcode.Push(1).Op(evmasm.ADD).Push(2000).Op(evmasm.SSTORE)
+	rcode.Push(0x40).Op(evmasm.MLOAD).Push(1).Op(evmasm.ADD).Push(2001).Op(evmasm.SSTORE)
+	rcode.Op(evmasm.STOP)
+	s0.SetCode(saddr, sc)
+	s0.SetNonce(saddr, 1)
+	s0.SetCode(raddr, rcode)
+	s0.SetNonce(raddr, 1)
+	root, err := s0.Commit(true)
+	if err == nil {
+		err = middleware.AccountDBManagerInstance.GetTrieDB().Commit(root, false)
+	}
+	if err != nil {
+		panic(runner.InfraError{Msg: "c12 deploy: " + err.Error()})
+	}
+	ec.root = root
+	pre := ec.state()
+	sink0 := pre.GetBalance(c12Sink)
+	tx := node.TxSpec{K: "call", From: 1, To: raddr.GetHexString(), Gas: 60000000, Salt: fmt.Sprintf("c12ac-%d", p.Seed)}.Build()
+	receipts, _, _, _ := ec.execBlock(ec.height+1, []*types.Transaction{tx}, true)
+	if len(receipts) != 1 {
+		return viol(0, "no-receipt", "authcall-opcode", "%d receipts for 1 transaction", len(receipts))
+	}
+	post := ec.state()
+	flag := new(big.Int).SetBytes(post.GetState(raddr, common.BigToHash(big.NewInt(2000))).Bytes()).Int64() - 1
+	inner := new(big.Int).SetBytes(post.GetState(raddr, common.BigToHash(big.NewInt(2001))).Bytes()).Int64() - 1
+	nonce1, sink1 := post.GetNonce(authority), post.GetBalance(c12Sink)
+	changed := nonce1 != nonce0 || sink1.Cmp(sink0) != 0
+	desc := fmt.Sprintf("authorising account's nonce %d -> %d, sink balance %s -> %s (AUTHCALL pushed %d)", nonce0, nonce1, sink0, sink1, inner)
+	log.Add("ss=authcall plain=%v status=%d inner-success=%d %s", p.SSPlain, receipts[0].Status, flag, desc)
+	st.Fault("stake_opcode_authcall")
+	st.State(simrt.HashString(fmt.Sprintf("ss|authcall|%v|%d|%d|%v", p.SSPlain, flag, inner, changed)))
+	st.Nontrivial(simrt.HashString(fmt.Sprintf("ss|authcall|%v", p.SSPlain)))
+	if p.SSPlain {
+		if changed {
+			st.Probe("authcall_effective_in_plain_call")
+		}
+		return nil
+	}
+	st.Fault("static_context")
+	if changed {
+		if flag == 1 {
+			return viol(0, "write-in-static-context-succeeded", "authcall-opcode", "AUTHCALL executed inside a STATICCALL modified state while the static call reported success: %s", desc)
+		}
+		return viol(0, "failed-frame-left-trace", "authcall-opcode", "a STATICCALL frame that failed left state behind: %s", desc)
 	}
 	return nil
 }
